@@ -760,6 +760,12 @@ HandleMSLogonAuth(rfbClient *client)
   mod = rfbClientSwap64IfLE(mod);
   resp = rfbClientSwap64IfLE(resp);
 
+  if (mod == 0)
+  {
+    rfbClientLog("MSLogon: the server sent a zero modulus.\n");
+    return FALSE;
+  }
+
   if (!client->GetCredential)
   {
     rfbClientLog("GetCredential callback is not set.\n");
